@@ -27,7 +27,7 @@ def run(res, tier, rng):
 
     urls = ["http://x.com/a/", "http://x.com:443/a", "https://x.com:80", "http://:pw@x.com/", "http://[::1]:80/a", "http://x.com/a%2541", "http://x.com/a/../?q=1",
             "http://x.com/%2E%2E/a", "http://u:@x.com:0/a//b/./c/..?%41=%2B&&x#%23", "x.com/a b?q=a+b",
-            "http://lemonde.fr/search?q=a&amp;page=2", "http://lemonde.fr/search?q=a&amp%3Bpage=2&q=a", " http://x.com/a \x00"]
+            "http://example.com/%a%31", "http://example.com/%%61%62?k=%f%30", "http://lemonde.fr/search?q=a&amp;page=2", "http://lemonde.fr/search?q=a&amp%3Bpage=2&q=a", " http://x.com/a \x00"]
     for _ in range(5000 if tier == "quick" else 120000):
         urls.append(gen_url(rng))
         if rng.random() < 0.08:
